@@ -139,6 +139,9 @@ func (t *Transport) OpenChannel(
 	// Open a graphsync request to the remote peer
 	req, err := ch.open(ctx, channelID, dataSender, root, stor, channel, exts)
 	if err != nil {
+		if errors.As(err, &errChannelRefused{}) {
+			t.CleanupChannel(channelID)
+		}
 		return err
 	}
 
@@ -467,9 +470,16 @@ func (t *Transport) gsOutgoingRequestHook(p peer.ID, request graphsync.RequestDa
 	// A data transfer channel was opened
 	err := t.events.OnChannelOpened(chid)
 	if err != nil {
-		// There was an error opening the channel, bail out
+		// There was an error opening the channel, bail out.
+		// The channel can not be cleaned up from here: it is locked by the open
+		// call that is waiting for this hook (dtChannel.open), and this hook runs
+		// on the run loop of graphsync's request manager, which that call is
+		// waiting for. Tell open, which gives the request up; its caller cleans up
 		log.Errorf("processing OnChannelOpened for %s: %s", chid, err)
-		t.CleanupChannel(chid)
+		select {
+		case t.trackDTChannel(chid).openRefused <- refusedRequest{requestID: request.ID(), err: err}:
+		default:
+		}
 		return
 	}
 
@@ -899,9 +909,10 @@ func (t *Transport) gsNetworkReceiveErrorListener(p peer.ID, gserr error) {
 
 func (t *Transport) newDTChannel(chid datatransfer.ChannelID) *dtChannel {
 	return &dtChannel{
-		t:         t,
-		channelID: chid,
-		opened:    make(chan graphsync.RequestID, 1),
+		t:           t,
+		channelID:   chid,
+		opened:      make(chan graphsync.RequestID, 1),
+		openRefused: make(chan refusedRequest, 1),
 	}
 }
 
@@ -933,6 +944,18 @@ func (t *Transport) getDTChannel(chid datatransfer.ChannelID) (*dtChannel, error
 	return ch, nil
 }
 
+// errChannelRefused is returned by dtChannel.open when the events handler
+// refused the channel (OnChannelOpened failed)
+type errChannelRefused struct{ error }
+
+func (e errChannelRefused) Unwrap() error { return e.error }
+
+// A graphsync request whose channel the events handler refused to open
+type refusedRequest struct {
+	requestID graphsync.RequestID
+	err       error
+}
+
 // Info needed to keep track of a data transfer channel
 type dtChannel struct {
 	channelID datatransfer.ChannelID
@@ -951,6 +974,9 @@ type dtChannel struct {
 	pendingExtensions  []graphsync.ExtensionData
 
 	opened chan graphsync.RequestID
+	// openRefused carries the graphsync request that the events handler refused
+	// (OnChannelOpened failed) to the open call that is waiting for it
+	openRefused chan refusedRequest
 
 	optionsLk       sync.RWMutex
 	storeRegistered bool
@@ -1026,6 +1052,16 @@ func (c *dtChannel) open(
 	select {
 	case <-ctx.Done():
 		return nil, ctx.Err()
+	case refused := <-c.openRefused:
+		// Nobody is going to consume this request: cancel it and drain it
+		go func() {
+			go func() { _ = c.t.gs.Cancel(context.Background(), refused.requestID) }()
+			for range responseChan {
+			}
+			for range errChan {
+			}
+		}()
+		return nil, fmt.Errorf("%s: opening channel: %w", chid, errChannelRefused{refused.err})
 	case requestID := <-c.opened:
 		// Mark the channel as open and save the Graphsync request key
 		c.isOpen = true
